@@ -1,7 +1,7 @@
 (* C02 - soundness of callVariant.  Level S: theorems about the specification Model/Spec.v; the engine
    is tied to `realizable` by the correspondence harness/props/c02.py only. *)
 From MoPep Require Import Model.Base Model.Rule Model.Digest Model.Spec Model.SpecStmt Gen.Bio
-                          Proofs.SpecProofs Model.Retry Proofs.RetryProofs.
+                          Proofs.SpecProofs Model.Retry Proofs.RetryProofs Model.W2F Model.SpecAlt Model.SpecAltStmt Proofs.SpecAltProofs.
 Open Scope Z_scope.
 
 (* The C02 decider is the property's statement (Realizable, Model/SpecStmt.v): some non-empty, pairwise
@@ -24,6 +24,19 @@ Theorem skip_routes_sound : forall (L : Type) (lab : nat -> list L) alive sc fue
   In w (spelled L lab (limited alive sc) fuel n) -> In w (spelled L lab sc fuel n).
 Proof. exact skip_routes_sound_lemma. Qed.
 Print Assumptions skip_routes_sound.
+
+(* ---- alt-translation flags ---- *)
+Theorem realizable_fl_iff : forall fl x p, realizable_fl fl x p = true <-> RealizableFl fl x p.
+Proof. exact realizable_fl_iff_lemma. Qed.
+Print Assumptions realizable_fl_iff.
+
+Theorem must_fl_sub_may : forall fl x p, In p (must_set_fl fl x) -> realizable_fl fl x p = true.
+Proof. exact must_fl_sub_may_lemma. Qed.
+Print Assumptions must_fl_sub_may.
+
+Theorem flags_off_realizable : forall x p, realizable_fl (mkFlags false false) x p = realizable x p.
+Proof. exact flags_off_realizable_lemma. Qed.
+Print Assumptions flags_off_realizable.
 
 (* ---- the retry clause: faithful model (Level F) of call_variant_peptide.caller_reducer, Model/Retry.v ---- *)
 
